@@ -4,6 +4,7 @@ import (
 	"bytes"
 	"encoding/json"
 	"fmt"
+	"regexp"
 	"strings"
 	"time"
 
@@ -305,7 +306,10 @@ func evalC13(sc *Scenario, sim *Sim) ([]Violation, bool, string) {
 		if got != b0[f.Path] {
 			changedAny = true
 		}
-		if got != lit && got != ord {
+		// the statement fixes the number, not the blanks between the colon and it
+		sepRe := regexp.MustCompile(`(test_id:|test_title:)[ \t]+`)
+		gotN := sepRe.ReplaceAllString(got, "$1 ")
+		if gotN != lit && gotN != ord {
 			what := "numbering"
 			// classify: is it only the numbering that is off?
 			gl, ll := strings.Split(got, "\n"), strings.Split(lit, "\n")
